@@ -397,6 +397,23 @@ def contains(env, item, container_node):
             return cond(z3.Contains(c.t, item.t), z3.Or(c.n, item.n))
         else: raise Unmodelled('membership in %r' % (c,))
     if not vals: return cond(FALSE)
+    if isinstance(item, PyTuple) and not isinstance(container_node, (ast.Tuple, ast.List, ast.Set)):
+        # (a, b) in (subquery of tuples): Python compares component-wise with ==; a None component of an ELEMENT never equals a
+        # value, so such an element simply does not match (pony adds IS NOT NULL filters for that).  A None component of the ITEM
+        # could match an element's None in Python (None == None) but never in SQL: left to the recorded region.
+        comps = [as_data(x) for x in item.items]
+        if not all(isinstance(x, SV) for x in comps): raise Unmodelled('tuple membership over non-scalars')
+        env.region('null-element-in-subquery-membership', z3.Or([x.n if x.sort != 'null' else TRUE for x in comps]))
+        hits = []
+        for g, v in vals:
+            if not isinstance(v, PyTuple) or len(v.items) != len(comps): raise Unmodelled('tuple membership: element shape')
+            parts = []
+            for x, y in zip(comps, [as_data(e) for e in v.items]):
+                if not isinstance(y, SV): raise Unmodelled('tuple membership over non-scalars')
+                c = cmp_values(env, '==', x, y)
+                parts.append(z3.And(z3.Not(c.n), c.t))
+            hits.append(z3.And(g, *parts))
+        return cond(z3.Or(hits))
     if not isinstance(container_node, (ast.Tuple, ast.List, ast.Set)):
         # a collection / subquery: Python compares the item with each element by ==, and `x == None` is simply False, so a
         # missing ELEMENT never makes the test UNKNOWN (pony filters NULL elements out to match this); a missing ITEM does
